@@ -390,3 +390,63 @@ Proof.
   destruct (poll_grun now s sentence) as [[now' s'] outs]. cbn [snd] in H.
   exists now', s', outs. split; [reflexivity|exact H].
 Qed.
+
+(** * the consequence named in the property: encode any message (either byte order), feed it,
+    poll after the timeout -- at the grammar level, one channel *)
+Fixpoint g_feeds (g : gstate) (c t : N) (l : list (N * N)) : option (gstate * list out2) :=
+  match l with
+  | [] => Some (g, [])
+  | (n, v) :: l' =>
+      match g_feed g c n v t with
+      | Some (g', o) =>
+          match g_feeds g' c t l' with
+          | Some (g'', os) => Some (g'', o :: os)
+          | None => None
+          end
+      | None => None
+      end
+  end.
+
+Definition reports (os : list out2) : list pnmsg :=
+  flat_map (fun o => (match fst o with Some m => [m] | None => [] end) ++
+                     (match snd o with Some m => [m] | None => [] end)) os.
+
+Definition sel_msb (reg : bool) : N := if reg then 101 else 99.
+Definition sel_lsb (reg : bool) : N := if reg then 100 else 98.
+
+(** 7-bit data entry: reported by the first poll after the timeout, exactly once *)
+Lemma encode_feed_poll_7bit c hi lo reg v t timeout :
+  exists g os g' o,
+    g_feeds G0 c t [(sel_msb reg, hi); (sel_lsb reg, lo); (6, v)] = Some (g, os) /\
+    g_poll timeout g c (t + timeout) = Some (g', o) /\
+    reports os ++ (match o with Some m => [m] | None => [] end) = [m7 c hi lo reg v DataEntry] /\
+    g_poll timeout g' c (t + timeout) = Some (g', None).
+Proof.
+  destruct reg; cbn [sel_msb sel_lsb];
+    (eexists; eexists; eexists; eexists; split; [reflexivity|]);
+    cbn [g_poll]; replace (t + timeout - t) with timeout by lia; rewrite N.leb_refl;
+    (split; [reflexivity|split; reflexivity]).
+Qed.
+
+(** 14-bit data entry, MSB first and LSB first: reported at its second byte; nothing more at the poll *)
+Lemma encode_feed_poll_14bit c hi lo reg vm vl t timeout (msb_first : bool) :
+  exists g os,
+    g_feeds G0 c t ([(sel_msb reg, hi); (sel_lsb reg, lo)] ++
+                    (if msb_first then [(6, vm); (38, vl)] else [(38, vl); (6, vm)])) = Some (g, os) /\
+    reports os = [m14 c hi lo reg vm vl] /\
+    g_poll timeout g c (t + timeout) = Some (g, None).
+Proof.
+  destruct reg, msb_first; cbn [sel_msb sel_lsb app];
+    (eexists; eexists; split; [reflexivity|split; reflexivity]).
+Qed.
+
+(** increment / decrement: reported immediately *)
+Lemma encode_feed_poll_incdec c hi lo reg v t timeout (inc : bool) :
+  exists g os,
+    g_feeds G0 c t [(sel_msb reg, hi); (sel_lsb reg, lo); (if inc then 96 else 97, v)] = Some (g, os) /\
+    reports os = [m7 c hi lo reg v (if inc then DataIncrement else DataDecrement)] /\
+    g_poll timeout g c (t + timeout) = Some (g, None).
+Proof.
+  destruct reg, inc; cbn [sel_msb sel_lsb];
+    (eexists; eexists; split; [reflexivity|split; reflexivity]).
+Qed.
